@@ -9,6 +9,8 @@ namespace Typestate
 
 /-! ### builders -/
 
+/-- `ty` stands for every type-assigning call: `.ty::<T>()`, `.ty(id)` and `.compact::<T>()` all have the signature
+    `FieldBuilder<F, N, TypeNotAssigned> → FieldBuilder<F, N, TypeAssigned>` -/
 inductive FStep | name | ty | typeName | docs
   deriving DecidableEq, Repr
 
